@@ -192,8 +192,7 @@ def run_variant(unit, variant, gen_c, workdir, prelude, solver='kissat', extra_d
     cmd = ['cbmc', b, '--json-ui'] + meta.get('cbmc_flags', []) + variant.get('cbmc_flags', [])
     if meta.get('unwind'):
         cmd += ['--unwind', str(meta['unwind']), '--unwinding-assertions']
-    if meta.get('object_bits'):
-        cmd += ['--object-bits', str(meta['object_bits'])]
+    cmd += ['--object-bits', str(meta.get('object_bits', 12))]
     if solver == 'kissat':
         cmd += ['--external-sat-solver', 'kissat']
     elif solver in ('cvc5', 'z3'):
